@@ -290,12 +290,17 @@ func runBatch(t *testing.T, rc *RunCtx, prop string) {
 		switch kind {
 		case "atts":
 			shared := ch.Pick(2, 0) == 1 // the whole committee attests at one (slot, committee index), roots differ
+			forks := ch.Pick(3, 0) == 2
 			sl, ci := ch.U64(), ch.U64()
 			for _, k := range keys {
 				uniq++
 				e := attFor(rc, k, model.W[k], uniq)
 				if shared {
 					e.Slot, e.CIdx = sl, ci
+				}
+				if forks {
+					// validators either side of a fork in one batch: same domain type, different fork data
+					e.Domain = MkDomain(DomAttester, uint64(1+len(o.Entries)%2))
 				}
 				o.Entries = append(o.Entries, e)
 			}
